@@ -46,6 +46,17 @@ theorem cloneHandle_rootOnly_noop (v : Variant) (st : St) (c : Gate.Pub) (x : Cm
     cloneHandle v st c x = st := by
   cases x <;> first | rfl | (simp [Cmd.gen, GateCmd.guard] at hg)
 
+/-- who receives a command in the model: `step` delivers `subscribe`/`unsubscribe`/`attach`/`reconfigure` to the root gate
+    only, the `follow*` commands to clones only (they come out of `notify_clones`), `detach`/`terminate` to either -/
+def Cmd.role : Cmd → GateCmd.Guard
+  | .subscribe _ => .rootOnly | .unsubscribe _ => .rootOnly | .attach _ => .rootOnly | .reconfigure _ => .rootOnly
+  | .followSub _ => .cloneOnly | .followUnsub _ => .cloneOnly | .followReconf => .cloneOnly
+  | .detach _ => .any | .terminate => .any
+
+/-- **Roles.** The `assert!(self.is_clone())` / `assert!(!self.is_clone())` / `unreachable!()` guards of the real arms give
+    every command of the model the role the model gives it. -/
+theorem guard_eq_model_roles (x : Cmd) : GateCmd.guard x.gen = x.role := by cases x <;> rfl
+
 /-- The roles, as a table: the model's root-side commands are exactly the generated non-`cloneOnly` ones among the
     nine it has, its `follow*` commands exactly the `cloneOnly` ones. -/
 theorem roles_eq_generated : ∀ x : Cmd, (GateCmd.guard x.gen = .cloneOnly ↔ ∃ y, GateCmd.notifies y = some x.gen ∧ y ≠ x.gen) := by
